@@ -179,6 +179,7 @@ class Crate:
         self.statics = d["statics"]
         if self.meta.get("tree_hash") is None:
             raise SystemExit("fact file without tree hash: " + path)
+        self._canonicalise_renames()
         self._by_path = {}
         for f in self.fns:
             self._by_path.setdefault(f["path"], []).append(f)
@@ -284,6 +285,57 @@ class Crate:
             if g not in self._old_to_new and p not in self._new_to_old:
                 self._old_to_new[g] = p
                 self._new_to_old[p] = g
+
+    def _canonicalise_renames(self):
+        """Present every function recognised as a rename / move of a reference-tree function under its reference path - in its own
+        record, in every call / path node that names it and in the MIR call lists - so that rules, audit keys and known-finding keys
+        written against the reference names keep matching. Source locations are untouched (reports point at the real code)."""
+        self._match_renames()
+        m = self._new_to_old
+        self.renames = dict(m)
+        if not m:
+            return
+
+        def fix(s):
+            if not isinstance(s, str):
+                return s
+            if s in m:
+                return m[s]
+            for new, old in m.items():
+                if s.startswith(new + "::{"):
+                    return old + s[len(new):]
+            return s
+        for f in self.fns:
+            stack = [f.get("body")]
+            while stack:
+                n = stack.pop()
+                if isinstance(n, list):
+                    stack.extend(n)
+                    continue
+                if not isinstance(n, dict):
+                    continue
+                for key in ("callee", "resolved", "def"):
+                    v = n.get(key)
+                    if isinstance(v, str):
+                        w = fix(v)
+                        if w != v:
+                            n[key] = w
+                            if key == "callee" and n.get("k") in ("call", "mcall"):
+                                n["name"] = w.rsplit("::", 1)[-1]
+                for key, v in n.items():
+                    if key not in ("ty", "sp") and isinstance(v, (dict, list)):
+                        stack.append(v)
+            p = fix(f["path"])
+            if p != f["path"]:
+                f["path"] = p
+                if "{" not in p.rsplit("::", 1)[-1]:
+                    f["name"] = p.rsplit("::", 1)[-1]
+        for mrec in self.mir:
+            mrec["path"] = fix(mrec["path"])
+            for c in mrec.get("calls", []) + mrec.get("fnrefs", []):
+                for key in ("callee", "resolved"):
+                    if isinstance(c.get(key), str):
+                        c[key] = fix(c[key])
 
     def _renamed_fn(self, path):
         self._match_renames()
